@@ -154,7 +154,7 @@ def run_one(D, Dz, dt, dxy, nsteps, npart, adv, inactive=False, wadv=0.0, big=Fa
                 if err[j] > 1e-9 * abs(exp[j]) + (64 if cellwise else 16) * np.finfo(float).eps * abs(pos[i]):
                     return (f"displacement:{name}", f"step {s} particle {i}: {name}-displacement {disp[i]} is not sqrt(2*{'Dz' if name == 'z' else 'D'}*dt)/d{name} "
                                                     f"times any value drawn in this step (sigma={sig}, metric={metric}; nearest candidate gives {exp[j]}, ratio {disp[i] / exp[j]})")
-                if j in used:
+                if j in used and not rng.big:
                     return ("draw-shared", f"step {s}: the same random value drives {used[j]} and {(name, i)}: displacements not independent")
                 used[j] = (name, i)
     return None
